@@ -1,6 +1,6 @@
 #!/usr/bin/env python3
 """Write /verif/seeded/<id>/meta.json from the confirmation logs and the trial logs."""
-import json, os, re, glob
+import json, os, re, glob, sys
 INFO = {
  "C01-A": ("C01", "try_alloc_layout_fast, align > MIN_ALIGN arm: capacity measured from the unrounded finger", "alignment >= 32 on a chunk whose base is not that aligned, nearly full chunk: block starts below the chunk"),
  "C01-B": ("C01", "dealloc rounds the freed finger up to layout.align() instead of MIN_ALIGN", "shrink that raised the alignment in place, then deallocate of that last block with a live neighbour above: neighbour handed out again"),
@@ -74,8 +74,23 @@ INFO = {
  "C19-D": ("C19", "try_with_min_align_and_capacity rounds the capacity up with an unchecked add", "MIN_ALIGN >= 2, capacity within MIN_ALIGN-1 of usize::MAX"),
  "C20-C": ("C20", "alloc_try_with frees the fresh chunk and then reads the error out of it (= C03-A)", "see C03-A; cross-arena effect needs another thread reusing the freed block"),
  "C20-D": ("C20", "Vec::append: capacity-0 fast path swaps the vectors (and with them their arenas)", "append across two arenas with an unallocated destination"),
+ "C01-E": ("C01", "try_alloc_try_with Err arm always restores the saved entry finger (same-chunk test and new-chunk branch removed)", "Result slot spilled into a new chunk, initialiser failed without allocating: the new chunk's finger points into the OLD chunk; later blocks lie outside the arena"),
+ "C03-E": ("C03", "try_with_min_align_and_capacity validates MIN_ALIGN (via with_min_align()) only AFTER new_chunk", "unsupported MIN_ALIGN (32, 64) with non-zero capacity: the chunk is obtained, the constructor panics, nothing owns or frees the block"),
+ "C06-E": ("C06", "reset early-out tests chunk_capacity() == 0 instead of the chunk-less sentinel", "newest chunk exactly full at reset time: reset does nothing"),
+ "C07-E": ("C07", "new_chunk: cumulative allocated_bytes starts from prev.layout.size() - FOOTER_SIZE instead of prev.allocated_bytes (also breaks C08)", "three or more chained chunks: older chunks forgotten, headroom over-estimated, accounting under-reports"),
+ "C09-E": ("C09", "new_chunk_memory_details: page rounding adds FOOTER_SIZE (48) instead of OVERHEAD (64)", "request-dictated chunk whose 16-rounded size is 4096*k - 48: chunk 16 bytes too small (debug panic in try_, Err plus an extra chunk in release)"),
+ "C10-E": ("C10", "alloc_try_with, new-chunk Err branch rewinds to the chunk START (data) instead of the footer (reverse of fix 7690071, this twin only)", "failing initialiser whose Result slot forced a new chunk: the whole chunk is reported as allocated by chunk iteration"),
+ "C13-E": ("C13", "Vec::extend_with: length incremented BEFORE the element is written", "resize growing by >= 2 with a Clone that panics (needs unwinding)"),
+ "C14-E": ("C14", "lossy decoder safe_get: `i > len` (reads one byte past the input)", "input ending in a truncated multi-byte sequence"),
+ "C15-E": ("C15", "partition_dedup_by moves the survivor with copy_nonoverlapping instead of swap", "elements with destructors, a rejected duplicate followed by a kept element: leak + double drop"),
+ "C17-E": ("C17", "Box::eq gains a ptr::eq identity shortcut", "non-reflexive value (NaN) compared with itself through the same box"),
+ "C18-E": ("C18", "RawVec::amortized_new_size doubles used_cap instead of self.cap", "reserve on a partly filled vector (after clear/truncate/pop): no doubling, linear number of reallocations"),
+ "C19-E": ("C19", "reserve_internal Exact arm: unchecked used_cap + needed_extra_cap", "non-empty Vec/String, reserve_exact/try_reserve_exact with additional > usize::MAX - len"),
 }
+ONLY = set(sys.argv[1:])  # seed ids to (re)write; trial logs of older rounds are not kept, so never rewrite those blindly
 for sid, (prop, what, needs) in INFO.items():
+    if not ONLY or sid not in ONLY:
+        continue
     d = "/verif/seeded/" + sid
     if not os.path.isdir(d):
         continue
